@@ -38,6 +38,8 @@ def run(chk):
                         '"to the precision of the printed format" is checked as: the value read back equals the float '
                         'obtained by re-reading the printed text',
                         'rows whose status is x (all sigmas missing) are exempt from the free-flag comparison']
+    F.gen_tables()
+    chk.trusted.append('translator gen/dump_mtzspec.cpp (default specification tables used by spec_inverse)')
     proved = chk.prove()
     h, d = F.harness(), F.driver()
     found = {}
